@@ -197,7 +197,13 @@ func (pc *PacketConn) SubscribeUnreachable(doneChan chan struct{}) chan Unreacha
 			if !ok {
 				continue
 			}
-			uChan <- msg
+			// a subscriber that has ended its subscription (or a closed socket) no longer takes
+			// notices: do not stay blocked on it, keep draining until the broker closes iChan
+			select {
+			case uChan <- msg:
+			case <-doneChan:
+			case <-pc.context.Done():
+			}
 		}
 	}()
 
